@@ -130,7 +130,12 @@ class GOb(Obligation):
                 G.PRIM_LOG.clear()
                 res = self.call(I)
                 prims = list(G.PRIM_LOG)
-                pairs = self.post(S, I, res) if self.post else []
+                try:
+                    pairs = self.post(S, I, res) if self.post else []
+                except EngineError:
+                    raise
+                except Exception as e:  # an error in the contract itself is a checker problem, never a verdict on /repo
+                    raise EngineError(f"contract/spec evaluation failed: {type(e).__name__}: {e}")
                 checks = []
                 for label, got, want in pairs:  # compared inside the path's context (path facts usable)
                     ok, info = _sym_equal(got, want, self.check_dtype)
@@ -172,6 +177,8 @@ class GOb(Obligation):
                 wit = self._concretize(p, why)
                 if wit is not None and wit.get("native_fails"):
                     return Verdict(REFUTED, "canonical-form", why, npaths, wit)
+                if wit is not None and wit.get("native_ok_everywhere") and why.startswith("exception on a feasible path"):
+                    return Verdict(UNDECIDED, "engine", "exception in the symbolic run that no concrete instance reproduces natively: " + why, npaths, wit)
                 if wit is not None and wit.get("native_ok_everywhere") and not wit.get("polynomial", True):
                     return Verdict(UNDECIDED, "canonical-form", "symbolic mismatch outside the polynomial fragment, no concrete failing input: " + why, npaths, wit)
                 return Verdict(REFUTED, "canonical-form", why, npaths, wit)
